@@ -120,12 +120,17 @@ class C10(Prop):
                   "2^26 call_outs are not modelled (side condition of NV.C10.handles_fit_int); top theorem "
                   "NV.C10.model_satisfies_spec: the oracle accepts every history of the model, for all scripts and commands")
     rule = ("cases = corpus + known-finding inputs + boundary list + seeded random histories of "
-            "call_out/remove/find (by name and handle)/remove-all/destruct/error at top level and inside call_out "
-            "callbacks, delays on both sides of the wheel size, tick spacings 0..200 incl. backlog; a case is "
+            "call_out (string and function pointer, with and without this_player)/remove/find (by name and handle)/"
+            "remove-all/reload_object/call_out_info/mud_status usage/destruct/error at top level and inside call_out "
+            "callbacks, delays < 1, on both sides of the wheel size, = wheel size, >= 2^31 and >= 2^32, tick spacings "
+            "0..200 incl. backlog; the branch histogram of the run is in coverage.histogram; a case is "
             "non-trivial when its trace has >= 2 lines; distinct = distinct canonical implementation trace")
     not_covered = ["the O_LISTENER branch of call_out() (the flag is never set in this driver: dead code)",
                    "reload_object (= remove_all_call_out + variable reset) is exercised only through remove_call_out()",
-                   "int overflow of the handle after 2^26 call_outs"]
+                   "int overflow of the handle after 2^26 call_outs (undefined behaviour; bound in handles_fit_int)",
+                   "print_call_out_usage / num_call and the free list: compared with the model, no oracle clause",
+                   "f_call_out by a destructed current_object (modelled, never reached by the harness objects)",
+                   "see notes/C10-coverage.md for the full map"]
 
     def gen_extra(self, ctx, bdir):
         from props import c10_extract
